@@ -392,7 +392,7 @@ def body_tree(case):
 
 def tests(tier):
     return [
-        TestSpec("history", gen_history, body_history, {"quick": 400, "thorough": 40000}, tape=1024, fuzz={"thorough": 40000}),
+        TestSpec("history", gen_history, body_history, {"quick": 400, "thorough": 40000}, tape=1024, fuzz={"thorough": 6000}),
         TestSpec("history-machine", gen_history, body_history, {"quick": 120, "thorough": 8000}, tape=1024, machine=machine_history),
         TestSpec("tree", gen_tree, body_tree, {"quick": 3000, "thorough": 400000}, tape=768, fuzz={"thorough": 40000}),
     ]
